@@ -1,7 +1,7 @@
 use crate::decoder::decode;
 use crate::decoder::ops::{Op, Register8, Register16, IndirectLocation, JumpCondition};
 use crate::cpu::{Registers, self};
-use crate::mem::{can_dynarec, get_executable_memory_slice, memory_read_byte, memory_write_byte, memory_write_word, MemoryAreas};
+use crate::mem::{rom_block_must_end, get_executable_memory_slice, memory_read_byte, memory_write_byte, memory_write_word, MemoryAreas};
 
 pub fn run_code_block(registers: &mut Registers, mem: *mut MemoryAreas) -> u8 {
   let mut status = cpu::STATUS_NORMAL;
@@ -10,7 +10,7 @@ pub fn run_code_block(registers: &mut Registers, mem: *mut MemoryAreas) -> u8 {
     // Blocks end before the last two bytes of a ROM region, exactly where a
     // translated block ends (see mem::can_dynarec), so that both execution
     // modes advance in the same steps.
-    if registers.ip != start && (registers.ip as usize) < 0x8000 && !can_dynarec(registers.ip as usize) {
+    if (start as usize) < 0x8000 && rom_block_must_end(start as usize, registers.ip as usize) {
       break;
     }
     match run_next_op(registers, mem) {
